@@ -28,9 +28,8 @@ EXTENDS CommentBlock, Json, IOUtils, SequencesExt
 Obs == JsonDeserialize(IOEnv.TRACE_FILE)
 
 \* kinds as far as the message text tells them apart
-KClass(k) == CASE k \in {"unbal", "stray"} -> "paren_unbal"
-               [] k \in {"dbl", "empty"} -> "paren_unexp"
-               [] OTHER -> k
+\* (which of the two parenthesis messages is issued depends on the text that follows, not on the fault alone)
+KClass(k) == IF k \in {"unbal", "stray", "dbl", "empty", "paren_unbal", "paren_unexp"} THEN "paren" ELSE k
 Coarse(S) == {<<p[1], KClass(p[2])>> : p \in S}
 
 FkAt(r, k) == IF \E i \in 1..Len(r.faults) : r.faults[i].at = k
@@ -68,7 +67,7 @@ C11(c, r) ==
          Speaks(c, r) => \A i \in 1..Len(r.diags) :
             LET d == r.diags[i] IN
             /\ d.hasfile /\ d.file = r.file /\ d.hasline
-            /\ <<Rel(r, d), d.kind>> \in Coarse(Permitted(r))
+            /\ <<Rel(r, d), KClass(d.kind)>> \in Coarse(Permitted(r))
     [] c = "CaretInLine" ->
          Speaks(c, r) => \A i \in 1..Len(r.diags) :
             LET d == r.diags[i] IN
@@ -98,7 +97,7 @@ FaultKind(r) == IF r.open \notin {"alone"} THEN r.open
 BadDiags(c, r) ==
   {i \in 1..Len(r.diags) :
      LET d == r.diags[i] IN
-     CASE c = "LineIsFaultLine" -> ~(d.hasfile /\ d.file = r.file /\ d.hasline /\ <<Rel(r, d), d.kind>> \in Coarse(Permitted(r)))
+     CASE c = "LineIsFaultLine" -> ~(d.hasfile /\ d.file = r.file /\ d.hasline /\ <<Rel(r, d), KClass(d.kind)>> \in Coarse(Permitted(r)))
        [] c = "CaretInLine" -> d.hasmarker /\ ~(InBlockD(r, d) /\ d.mline = r.src[Rel(r, d) + 1] /\ 0 <= d.mpos /\ d.mpos <= d.mlen)
        [] c = "InBlock" -> ~(d.hasfile /\ d.file = r.file /\ InBlockD(r, d))
        [] OTHER -> FALSE}
@@ -118,7 +117,7 @@ ModelAgrees(r) ==
   (r.stream = "fault" /\ r.alone) =>
      \* cases are exported with StartLine = 1; a lost position is line 0 in the model
      {<<r.specdiags[i].line - 1, KClass(r.specdiags[i].kind)>> : i \in 1..Len(r.specdiags)}
-     = {<<IF r.diags[i].hasline THEN Rel(r, r.diags[i]) ELSE 0 - 1, r.diags[i].kind>> : i \in 1..Len(r.diags)}
+     = {<<IF r.diags[i].hasline THEN Rel(r, r.diags[i]) ELSE 0 - 1, KClass(r.diags[i].kind)>> : i \in 1..Len(r.diags)}
 
 RejectedOf(r) == { <<r.id, c, Detail(c, r)>> : c \in {d \in ClauseNames : ~C11(d, r)} }
                  \cup (IF ModelAgrees(r) THEN {} ELSE {<<r.id, "DRIFT:ModelDiags", FaultKind(r)>>})
